@@ -157,4 +157,62 @@ theorem delivered_contents_immutable_needs_get :
   revert h1
   decide
 
+/-! ### `paramPool` / `paramListPool`: `csi.Parameters` (a slice of slices) -/
+
+/-- **Delivered parameters are immutable.**  For every interleaving of the steps of `csiDispatch`
+    (`Get()[:0]` from the list pool and the param pool returning *any* pooled slice or a new one,
+    `append`s in place or growing to any capacity, `emit`) with consumer `Finish` calls (which put
+    every parameter slice and then the list back; any order, any number of sequences held, at most
+    once per sequence), from the initial state: every delivered, unfinished CSI reads through
+    `seq.Parameters` — list cells `[0,len)` and, through each header, `[]int` cells `[0,len_i)` —
+    exactly the values it read when it was delivered. -/
+theorem delivered_params_immutable (ls : List PLabel) (s : PSt) (h : prun PSt.init ls = some s)
+    (d : PDeliv) (hd : d ∈ s.delivered) : readParams s.pheap s.lheap d.l = d.snap :=
+  (prun_inv ls PSt.init s PInv_init h).intact d hd
+
+/-- The ghost field `snap` is the value of `csi.Parameters` at the `emit`. -/
+theorem params_snapshot_taken_at_delivery (s s' : PSt) (h : pstep s .emit = some s') :
+    ∃ l, s.work = some (l, none) ∧ 0 < l.len ∧ s'.work = none ∧
+      s'.delivered = ⟨l, readParams s.pheap s.lheap l⟩ :: s.delivered := by
+  simp only [pstep] at h
+  split at h
+  · rename_i l hw
+    split at h
+    · cases h
+    · rename_i hlen
+      simp only [Option.some.injEq] at h; subst h
+      exact ⟨l, hw, Nat.pos_of_ne_zero hlen, rfl, rfl⟩
+  · cases h
+
+/-- **One owner per array, in both heaps**, along every run: the `[][]int` arrays of the running
+    dispatch, of pooled lists and of delivered sequences are pairwise distinct; the `[]int` arrays
+    of `param`, of the headers already appended to `csi.Parameters`, of pooled params and of all
+    headers of all delivered sequences are pairwise distinct (no repetition in `lowners`/`powners`);
+    all are allocated. -/
+theorem param_arrays_one_owner (ls : List PLabel) (s : PSt) (h : prun PSt.init ls = some s) :
+    (lowners s).Nodup ∧ (powners s).Nodup ∧
+    (∀ a ∈ lowners s, a < s.lheap.length) ∧ (∀ a ∈ powners s, a < s.pheap.length) := by
+  have hinv := prun_inv ls PSt.init s PInv_init h
+  exact ⟨hinv.lown.1, hinv.pown.1, hinv.lown.2, hinv.pown.2⟩
+
+/-- Non-vacuity: `CSI 1;2:3 m`, `CSI 4 m`, `Finish` of the first, then `CSI 5;6 m` whose three `Get`s
+    return the first one's list and both of its parameter arrays: the run is enabled; before the
+    reuse `[]int` arrays 0 and 1 read `1` / `2,3` (the finished sequence), after it `5` / `6,3…` —
+    reuse really overwrites, in place, what the finished sequence pointed to — while the unfinished
+   `CSI 4 m` and the new sequence are intact, and the owner lists have no repetition. -/
+example :
+    (prun PSt.init (pReuseTrace.take 15)).map (fun s => (s.pheap.map (·.take 2), s.ppool, s.lpool)) =
+      some ([[1, 0], [2, 3], [4, 0]], [⟨0, 1⟩, ⟨1, 2⟩], [⟨0, 2⟩]) ∧
+    (prun PSt.init pReuseTrace).map (fun s => (s.pheap.map (·.take 2), s.delivered, lowners s, powners s)) =
+      some ([[5, 0], [6, 3], [4, 0]], [⟨⟨0, 2⟩, [[5], [6]]⟩, ⟨⟨1, 1⟩, [[4]]⟩], [0, 1], [0, 1, 2]) ∧
+    (prun PSt.init pReuseTrace).map pAllIntact = some true := by decide
+
+/-- Growth of both kinds of array is exercised too: 7 sub-parameters in one parameter (capacity 6),
+    5 parameters (capacity 4). -/
+example :
+    (prun PSt.init ([.begin none, .get none] ++ List.replicate 7 (.app 9 12) ++ [.push 0] ++
+        (List.replicate 4 [PLabel.get none, .app 1 0, .push 8]).flatten ++ [.emit])).map
+      (fun s => (s.delivered, pAllIntact s)) =
+      some ([⟨⟨1, 5⟩, [[9, 9, 9, 9, 9, 9, 9], [1], [1], [1], [1]]⟩], true) := by decide
+
 end VaxisModel.Props.C08Pools
